@@ -103,6 +103,15 @@ macro_rules
         eval, evalArgs, execPrim, asLoc, Env.setVar, Env.setPriv, setDst, bind, Except.bind,
         Val.truthy, bindParams, evalBin, evalUn, boolV, *, $ls,*])
 
+/-- the body of the first `for (;;)` of a statement (to state a lemma about "the loop body of the generated function"
+without copying its text) -/
+def firstLoop : Stmt → Option Stmt
+  | .loop b => some b
+  | .seq a b => match firstLoop a with
+    | some x => some x
+    | none => firstLoop b
+  | _ => none
+
 /-- the body outcomes after which `for (;;)` goes round again -/
 def Ctl.goesOn : Ctl → Bool
   | .normal | .cont => true
@@ -161,5 +170,86 @@ theorem iterate_inv {σ : Type} (lr : σ → List Event → Option σ)
     | fuel =>
       simp only [Ctl.goesOn] at hpost
       exact ⟨_, rfl, oev, ls1, rfl, hl1, .inr ⟨.fuel, rfl, by simpa using hpost, rfl⟩⟩
+
+/-- case analysis on a run's result (used instead of a `match` in statements) -/
+@[reducible] def Outcome (x : Except String Out) (ok : Out → Prop) (err : Prop) : Prop :=
+  match x with
+  | .ok o => ok o
+  | .error _ => err
+
+@[simp] theorem Outcome_ok (o ok err) : Outcome (.ok o) ok err = ok o := rfl
+@[simp] theorem Outcome_error (e ok err) : Outcome (.error e) ok err = err := rfl
+
+/-- `iterate_inv` for bodies that may fail: `Bad` = what holds of the state in which the body returns `.error`
+(e.g. "the oracle handed NULL for the stack head, which the source dereferences").  Then the loop fails only in a
+`Bad` state that the local automaton reaches by an accepted event sequence. -/
+theorem iterate_inv_gen {σ : Type} (lr : σ → List Event → Option σ)
+    (lr_nil : ∀ s, lr s [] = some s)
+    (lr_append : ∀ s a b, lr s (a ++ b) = (lr s a).bind (fun m => lr m b))
+    (body : Env → List Val → Except String Out)
+    (I : Env → List Val → σ → Prop) (R : Ctl → Env → List Val → σ → Prop) (Bad : Env → List Val → σ → Prop)
+    (hbody : ∀ env inp ls, I env inp ls → Outcome (body env inp)
+      (fun o => ∃ ls', lr ls o.events = some ls' ∧
+          (if o.ctl.goesOn then I o.env o.inp ls' else R o.ctl o.env o.inp ls'))
+      (Bad env inp ls)) :
+    ∀ n env inp ls acc, I env inp ls → Outcome (iterate body n env inp acc)
+      (fun out => ∃ evs ls', out.events = acc ++ evs ∧ lr ls evs = some ls' ∧
+          (out.ctl = .fuel ∨ ∃ c, c.goesOn = false ∧ R c out.env out.inp ls' ∧ out.ctl = c.afterLoop))
+      (∃ evs ls' env' inp', lr ls evs = some ls' ∧ Bad env' inp' ls') := by
+  intro n
+  induction n with
+  | zero =>
+    intro env inp ls acc _
+    exact ⟨[], ls, by simp, lr_nil ls, .inl rfl⟩
+  | succ n ih =>
+    intro env inp ls acc hI
+    have hb := hbody env inp ls hI
+    cases hbe : body env inp with
+    | error e =>
+      rw [hbe] at hb
+      simp only [iterate, hbe, bind, Except.bind]
+      exact ⟨[], ls, env, inp, lr_nil ls, hb⟩
+    | ok o =>
+      rw [hbe] at hb
+      obtain ⟨ls1, hl1, hpost⟩ := hb
+      rcases o with ⟨oev, oenv, oinp, octl⟩
+      simp only [iterate, hbe, bind, Except.bind]
+      cases octl with
+      | normal =>
+        simp only [Ctl.goesOn, if_true] at hpost
+        have ih' := ih oenv oinp ls1 (acc ++ oev) hpost
+        cases hi : iterate body n oenv oinp (acc ++ oev) with
+        | error e =>
+          rw [hi] at ih'
+          obtain ⟨evs, ls2, env', inp', hl2, hbad⟩ := ih'
+          exact ⟨oev ++ evs, ls2, env', inp', by simp [lr_append, hl1, hl2], hbad⟩
+        | ok out =>
+          rw [hi] at ih'
+          obtain ⟨evs, ls2, hev, hl2, hfin⟩ := ih'
+          exact ⟨oev ++ evs, ls2, by simp [hev], by simp [lr_append, hl1, hl2], hfin⟩
+      | cont =>
+        simp only [Ctl.goesOn, if_true] at hpost
+        have ih' := ih oenv oinp ls1 (acc ++ oev) hpost
+        cases hi : iterate body n oenv oinp (acc ++ oev) with
+        | error e =>
+          rw [hi] at ih'
+          obtain ⟨evs, ls2, env', inp', hl2, hbad⟩ := ih'
+          exact ⟨oev ++ evs, ls2, env', inp', by simp [lr_append, hl1, hl2], hbad⟩
+        | ok out =>
+          rw [hi] at ih'
+          obtain ⟨evs, ls2, hev, hl2, hfin⟩ := ih'
+          exact ⟨oev ++ evs, ls2, by simp [hev], by simp [lr_append, hl1, hl2], hfin⟩
+      | brk =>
+        simp only [Ctl.goesOn] at hpost
+        exact ⟨oev, ls1, rfl, hl1, .inr ⟨.brk, rfl, by simpa using hpost, rfl⟩⟩
+      | ret v =>
+        simp only [Ctl.goesOn] at hpost
+        exact ⟨oev, ls1, rfl, hl1, .inr ⟨.ret v, rfl, by simpa using hpost, rfl⟩⟩
+      | blocked =>
+        simp only [Ctl.goesOn] at hpost
+        exact ⟨oev, ls1, rfl, hl1, .inr ⟨.blocked, rfl, by simpa using hpost, rfl⟩⟩
+      | fuel =>
+        simp only [Ctl.goesOn] at hpost
+        exact ⟨oev, ls1, rfl, hl1, .inr ⟨.fuel, rfl, by simpa using hpost, rfl⟩⟩
 
 end UrcuVerif.Src
